@@ -26,15 +26,20 @@ import dimlib as D  # noqa: E402
 
 MANIFEST = dict(
     category="proof",
-    text="PLACEHOLDER (edited by the integrator). Machine-checked theorems (Coq) about the executable model of "
-         "numbat's type checker front end (Dim/Model.v, Dim/Infer.v): C02_solver_sound, C02_accept_sound, "
-         "C02_whole_input. Tied to the code by correspondence only (not proved against Rust): accept/reject, the "
-         "TypeCheckError variant (error family) and the raw type scheme of every statement are compared between "
-         "model and implementation on generated programs, mis-dimensioned variants and two-input sessions; the "
-         "whole-input clause (a rejected input prints nothing and defines nothing) is checked on the implementation "
-         "by print capture and a definition census, and by a follow-up input that must not see the rejected "
-         "input's names. An independent dimensional analysis in Python gives the expected verdict and dimensions.",
-    design_ref="DESIGN.md §6 C02",
+    text="proof (partial). Machine-checked (Coq, closed under the global context) over the executable model of "
+         "numbat's type checker (Dim/Model.v, Dim/Infer.v): C02_solver_sound — for every constraint set, a "
+         "substitution returned by ConstraintSolver::solve (unification + Gaussian elimination over exponents) "
+         "satisfies every Equal / IsDType / EqualScalar constraint under every well-sorted valuation that is an "
+         "instance of it; C02_whole_input / C02_whole_input_accepted — a statement that fails to check after a checked "
+         "prefix rejects the whole input, leaves the pre-input checker state and never enters the run stage. NOT "
+         "proved: C02_accept_sound (constraint generation sound w.r.t. the declarative dimensional analysis of "
+         "Dim/Sem.v), C02_reject_complete, solver termination/mgu. Those clauses rest on the ties: accept/reject, the "
+         "TypeCheckError variant and the raw type scheme of every statement are compared between model and "
+         "implementation on generated multi-statement programs, mis-dimensioned variants and two-input sessions; an "
+         "independent dimensional analysis in Python gives the expected verdict and dimensions on the implementation; "
+         "the whole-input clause is also checked on the implementation by print capture, a definition census and a "
+         "follow-up input that must not see the rejected input's names.",
+    design_ref="DESIGN.md §6 C02; design/dim.md",
     note="Trusted: Coq kernel + vm_compute; the hand-written model Dim/Model.v + Dim/Infer.v (validated by the "
          "correspondence, not proved against Rust); hook numbat::verif::dim; translator Gen/PreludeDims.v; the "
          "Python oracle tools/props/dimlib.py analyse. Function values, structs, string interpolation, DateTime "
